@@ -1,4 +1,4 @@
-import TinodeVerif.Model.TopicTags
+import TinodeVerif.Model.TopicMe
 import TinodeVerif.Driver.Wire
 /-! Driver for the world stream (`TestVerifWorld`): one op per line, one output line per op, rendered exactly like the
 Go harness renders the real frames and state. -/
@@ -38,7 +38,11 @@ def cacheDigest (w : World) : List String :=
       s!"{if u = "" then "-" else u}:{showMode p.want}/{showMode p.given}:r{p.readId}:v{p.recvId}:d{p.delId}:o{p.online}:p={showTok p.priv}{if p.deleted then ":deleted" else ""}{if p.isChan then ":chan" else ""}")
     let ss := (t.sessions.map (fun (s, u) => s!"{s}:{if u = "" then "-" else u}{if t.chanSess.contains s then ":chan" else ""}")).mergeSort (· ≤ ·)
     let st := (if t.inactive then " inactive" else "") ++ (if t.readOnly then " readonly" else "")
-    s!"cache {t.name} last={t.lastId} del={t.delId} owner={if t.owner = "" then "-" else t.owner} acs={showMode t.auth}/{showMode t.anon} pub={showTok t.pub} tr={showTok t.tr} tags=[{",".intercalate t.tags}]{st} users[{" ".intercalate us}] sess[{" ".intercalate ss}]")
+    let bit (b : Bool) : String := if b then "1" else "0"
+    let contacts := if t.isMe then
+        s!" contacts[{" ".intercalate ((t.perSubs.map (fun (n, o, e) => s!"{n}:{bit o}:{bit e}")).mergeSort (· ≤ ·))}]" ++ (if t.loaded then " announced" else "")
+      else ""
+    s!"cache {t.name} last={t.lastId} del={t.delId} owner={if t.owner = "" then "-" else t.owner} acs={showMode t.auth}/{showMode t.anon} pub={showTok t.pub} tr={showTok t.tr} tags=[{",".intercalate t.tags}]{st} users[{" ".intercalate us}] sess[{" ".intercalate ss}]{contacts}")
 
 def storeDigest (w : World) : List String :=
   (w.store.mergeSort (fun a b => a.name ≤ b.name)).map (fun r =>
@@ -57,8 +61,13 @@ def sessDigest (w : World) : List String :=
 
 /-- a p2p topic is known to each participant by the other participant's name: the key `P:Ua:Ub` in a frame is replaced by
 the name under which the user of the receiving session addresses the topic (prepareBroadcastableMessage, Topic.original) -/
+def renameMe (uid : Uid) (f : String) : String :=
+  let ws := f.splitOn " "
+  let idx := if ws.headD "" = "ctrl" then 2 else 1
+  if uid ≠ "" ∧ ws.getD idx "" = uid then " ".intercalate (ws.set idx "me") else f
+
 def renameFor (uid : Uid) (f : String) : String :=
-  " ".intercalate ((f.splitOn " ").map (fun w =>
+  " ".intercalate (((renameMe uid f).splitOn " ").map (fun w =>
     if w.startsWith "P:" then
       match w.splitOn ":" with
       | ["P", x, y] => if uid = x then y else if uid = y then x else w
@@ -107,9 +116,18 @@ def chanFor (pre post : World) (ad : Addr) (sid : Sid) (f : String) : String :=
   let ws := if blank then ws.map (fun w => if w.startsWith "from=" then "from=-" else w) else ws
   " ".intercalate ws
 
+/-- consecutive `me` notifications at one session are compared sorted (their order is that of a map walk and of independent answers) -/
+def sortMeRuns : List String → List String → List String
+  | [], run => run.mergeSort (· ≤ ·)
+  | f :: rest, run =>
+    if f.startsWith "pres me " ∨ f.startsWith "info me " then sortMeRuns rest (run ++ [f])
+    else run.mergeSort (· ≤ ·) ++ f :: sortMeRuns rest []
+
 def render (pre : World) (st : WSt) (c : Ctx) (ad : Addr := {}) : String :=
-  let frames := st.w.sess.flatMap (fun s => (c.frames.filter (·.1 = s.sid)).map (fun (sid, f) =>
-    s!"{sid}<-{chanFor pre c.w ad sid (renameFor s.uid f)}"))
+  let frames := st.w.sess.flatMap (fun s =>
+    (sortMeRuns ((c.frames.filter (·.1 = s.sid)).map (fun (sid, f) =>
+      if f.startsWith "ctrl 401 " then f else chanFor pre c.w ad sid (renameFor s.uid f))) []).map
+      (fun f => s!"{s.sid}<-{f}"))
   -- sessions created before this op only; all frames belong to known sessions
   let parts := frames ++ c.pushes ++ [s!"calls={",".intercalate c.calls}"] ++ cacheDigest c.w ++ storeDigest c.w ++ sessDigest c.w
   " | ".intercalate parts
@@ -144,7 +162,7 @@ def step (st : WSt) (ws : List String) : Option (WSt × String) :=
   | ["crash", k] => (decNat k).map (fun k => ({ st with crashK := k }, "ok"))
   | "restart" :: _ =>
     let store := st.snap.getD st.w.store
-    let w := { st.w with store := store, live := [], sess := st.w.sess.map (fun s => { s with subs := [] }) }
+    let w := { st.w with store := store, live := [], sess := st.w.sess.map (fun s => { s with subs := [], out := false }) }
     let st := { st with w := w, snap := none }
     some (st, render w st { w := w })
   | "userstate" :: u :: rest =>
@@ -155,8 +173,8 @@ def step (st : WSt) (ws : List String) : Option (WSt × String) :=
     some (st, render pre st c)
   | "unload" :: t :: _ =>
     let c : Ctx := { w := st.w }
-    let (c, msg) := c.opUnload t
-    let c := c.deliverRouted
+    let (c, msg) := if isMeKey st.w t then c.opUnloadMe t else c.opUnload t
+    let c := c.deliverAll
     if msg ≠ "" then some ({ st with snap := none }, msg) else
     let pre := st.w
     let st := { st with w := c.w, snap := none }
@@ -169,6 +187,8 @@ def step (st : WSt) (ws : List String) : Option (WSt × String) :=
       let viaChn : Bool := match rest with | t :: _ => t.startsWith "chn:" | [] => false
       let c0 : Ctx := { w := st.w, failK := st.failK, crashK := st.crashK }
       let c : Option Ctx :=
+        if s.out ∧ (parseAs m).isNone ∧ op ≠ "fg" ∧ op ≠ "drop" then
+          some (c0.loggedOut sid (if op = "newgrp" then (if kvGet m "chan" = "1" then "?nch" else "?new") else rest.headD "") (op = "note")) else
         match resolveActor c0 s (parseAs m) with
         | .error c => some c
         | .ok a =>
@@ -179,6 +199,10 @@ def step (st : WSt) (ws : List String) : Option (WSt × String) :=
             | [] => []
           let isChanT : Bool := viaChn || (match rest with | t :: _ => st.w.isChanTopic t | [] => false)
           match op, rest with
+          | "sub", "me" :: _ => some (c0.opSubMe a)
+          | "leave", "me" :: _ => some (c0.opLeaveMe a (kvGet m "unsub" = "1"))
+          | "pub", "me" :: _ => some (c0.opPubMe a)
+          | "get", "me" :: "desc" :: _ => some (c0.opGetMeDesc a)
           | "newgrp", _ =>
             let o : NewGrpOpts := { auth := optStr (kvGet m "auth"), anon := optStr (kvGet m "anon"), want := kvGet m "want", priv := privArg (kvGet m "priv"), pub := privArg (kvGet m "pub"), chan := kvGet m "chan" = "1" }
             let tagArg := kvGet m "tags"
@@ -241,13 +265,13 @@ def step (st : WSt) (ws : List String) : Option (WSt × String) :=
             if isUser t then some (c0.opDelTopicP2P a t (kvGet m "hard" = "1"))
             else if isChanT then some (c0.opDelTopicC a t viaChn (kvGet m "hard" = "1"))
             else some (c0.opDelTopic a t (kvGet m "hard" = "1"))
-          | "fg", _ => some (c0.opFgAllC sid)
-          | "drop", _ => some (c0.opDropAllC sid)
+          | "fg", _ => some (c0.opFgAllM sid)
+          | "drop", _ => some (c0.opDropAllM sid)
           | _, _ => none
       match c with
       | none => none
       | some c =>
-        let c := c.deliverRouted
+        let c := c.deliverAll
         -- the order in which the topics learn about a dropped connection is not defined: frames are compared sorted
         let c := if op = "drop" ∨ op = "fg" then { c with frames := c.frames.mergeSort (fun a b => s!"{a.1}<-{a.2}" ≤ s!"{b.1}<-{b.2}") } else c
         let stOut := { st with w := c.w }
